@@ -287,7 +287,11 @@ def h2_program(ctx, n, first, length, with_ancilla):
                 loss_block(u2f[m1], lam)
             elif kind == "swaps":
                 sw = ctx.choice(tag + "swaps", _swap_dicts(n))
-                c.mode_swaps(dict(sw))
+                given = dict(sw)
+                c.mode_swaps(given)
+                # the component is the swap as it was when it was added: what the caller does with
+                # the dictionary afterwards is not part of the circuit
+                given.clear()
                 apply(ref.embed_swaps(ctx, N, {u2f[a]: u2f[b] for a, b in sw.items()}))
             elif kind == "barrier":
                 which = ctx.choice(tag + "barrier", ["all", "one"])
